@@ -655,7 +655,12 @@ func ruleErrorFlow(c *Ctx, rule string, c06, c07, c08 bool) {
 		// every place that can emit an early exit: today a provider-error check and a cancellable wait. While main-thread
 		// waits can be plain receives (finding above), any further early exit inside a goroutine before its close is one
 		// more way to hang the caller, so a new site is reported for triage.
-		allowed := map[string]bool{"buildWaitStatement": true, "buildErrorHandlingStatement": true}
+		allowed := map[*ssa.Function]bool{}
+		for _, role := range []string{"(*InjectorProviderCallStmt).buildWaitStatement", "(*InjectorProviderCallStmt).buildErrorHandlingStatement"} {
+			if f := resolveRole(c, genPkg, role); f != nil {
+				allowed[f] = true
+			}
+		}
 		for _, fn := range pkgFuncs(L, genPkg) {
 			for _, cs := range callsIn(fn) {
 				if cs.common.StaticCallee() != nil || cs.common.IsInvoke() {
@@ -667,7 +672,7 @@ func ruleErrorFlow(c *Ctx, rule string, c06, c07, c08 bool) {
 				if cs.common.Signature().String() != "func(errExpr go/ast.Expr) []go/ast.Stmt" && !strings.HasSuffix(cs.common.Signature().String(), "(go/ast.Expr) []go/ast.Stmt") {
 					continue
 				}
-				c.check(allowed[fn.Name()], rule, fnName(fn)+":early-exit-template", L.pos(cs.instr.Pos()),
+				c.check(allowed[fn], rule, fnName(fn)+":early-exit-template", L.pos(cs.instr.Pos()),
 					"early exits of generated code are emitted only by the provider-error check and by the cancellable wait", "handler invoked in "+fnName(fn))
 			}
 		}
